@@ -53,6 +53,12 @@ Slots == {
   Slot("ReqSetMethod", "req", "method", FALSE), Slot("ReqHeaderSetRequestURI", "req", "uri", FALSE),
   Slot("ReqSetRequestURI", "req", "uri", FALSE), Slot("ReqSetProtocol", "req", "proto", FALSE),
   Slot("ReqSetTrailer", "req", "trailer", TRUE),
+  \* the request target / Host built from the request's URI object and re-derived by Request.Write
+  Slot("ReqURISetQueryString", "req", "uripart", FALSE), Slot("ReqURISetQueryStringBytes", "req", "uripart", FALSE),
+  Slot("ReqURIQueryArgsSet", "req", "uripart", FALSE), Slot("ReqURISetPath", "req", "uripart", FALSE),
+  Slot("ReqURISetPathRaw", "req", "uripart", FALSE), Slot("ReqURISetHash", "req", "uripart", FALSE),
+  Slot("ReqURIUpdate", "req", "uripart", FALSE), Slot("ReqURISetHost", "req", "value", FALSE),
+  Slot("ReqSetHostURI", "req", "value", FALSE), Slot("ReqURISetUsername", "req", "value", FALSE),
   Slot("RespSetName", "resp", "name", FALSE), Slot("RespAddName", "resp", "name", FALSE),
   Slot("RespSetBytesKVName", "resp", "name", FALSE),
   Slot("RespSetValue", "resp", "value", FALSE), Slot("RespAddValue", "resp", "value", FALSE),
@@ -63,6 +69,12 @@ Slots == {
   Slot("RespSetTrailer", "resp", "trailer", TRUE),
   Slot("ProxyTarget", "connect", "target", TRUE) }
 
+\* Slots whose input the library may deliver in an ENCODED form (percent-encoding, base64,
+\* lower-casing): delivery is then not compared byte for byte, every structural obligation stays.
+EncodedSlots == { "ReqURISetQueryString", "ReqURISetQueryStringBytes", "ReqURIQueryArgsSet", "ReqURISetPath",
+                  "ReqURISetPathRaw", "ReqURISetHash", "ReqURIUpdate", "ReqURISetHost", "ReqSetHostURI",
+                  "ReqURISetUsername", "ReqSetRequestURI" }
+
 \* ------------------------------------------------- the line carrying the slot
 T == <<"TCHAR">>
 Line(kind, x) ==
@@ -71,6 +83,7 @@ Line(kind, x) ==
     [] kind = "trailer" -> T \o <<"COLON", "SP">> \o x                     \* Trailer: <x>
     [] kind = "method"  -> x \o <<"SP">> \o T \o <<"SP">> \o T             \* <x> /uri HTTP/1.1
     [] kind = "uri"     -> T \o <<"SP">> \o x \o <<"SP">> \o T
+    [] kind = "uripart" -> T \o <<"SP">> \o T \o x \o <<"SP">> \o T        \* POST /p?<x> HTTP/1.1
     [] kind = "target"  -> T \o <<"SP">> \o x \o <<"SP">> \o T             \* CONNECT <x> HTTP/1.1
     [] kind = "proto"   -> T \o <<"SP">> \o T \o <<"SP">> \o x
     [] kind = "rproto"  -> x \o <<"SP">> \o T \o <<"SP">> \o T             \* <x> 200 OK
@@ -113,6 +126,9 @@ ReadBack(kind, x) ==
     [] kind = "method" -> LET p == PeerReqLine(l) IN IF p.ok /\ p.uri = T /\ p.proto = T THEN [ok |-> TRUE, v |-> p.method] ELSE Reject
     [] kind \in {"uri", "target"} ->
          LET p == PeerReqLine(l) IN IF p.ok /\ p.method = T /\ p.proto = T THEN [ok |-> TRUE, v |-> p.uri] ELSE Reject
+    [] kind = "uripart" ->
+         LET p == PeerReqLine(l) IN IF p.ok /\ p.method = T /\ p.proto = T /\ IsPrefixOf(T, p.uri)
+                                    THEN [ok |-> TRUE, v |-> Tail(p.uri)] ELSE Reject
     [] kind = "proto" -> LET p == PeerReqLine(l) IN IF p.ok /\ p.method = T /\ p.uri = T THEN [ok |-> TRUE, v |-> p.proto] ELSE Reject
     [] kind = "rproto" -> LET p == PeerStatusLine(l) IN IF p.ok /\ p.code = T /\ p.reason = T THEN [ok |-> TRUE, v |-> p.proto] ELSE Reject
     [] kind = "reason" -> LET p == PeerStatusLine(l) IN IF p.ok /\ p.proto = T /\ p.code = T THEN [ok |-> TRUE, v |-> Trim(p.reason)] ELSE Reject
@@ -138,6 +154,7 @@ DeliverableExplicit(kind, s) ==
   CASE kind = "name" -> n # <<>> /\ ~Has(n, "COLON") /\ Head(n) # "SP"
     [] kind \in {"value", "trailer", "reason"} -> TRUE
     [] kind \in {"method", "uri", "target", "proto"} -> n # <<>> /\ ~Has(n, "SP")
+    [] kind = "uripart" -> ~Has(n, "SP")
     [] kind = "rproto" -> n # <<>> /\ ~Has(n, "SP")
 
 \* well-formed for the slot's grammar: deliverable, a token where RFC 9110 wants a token, and no
@@ -145,7 +162,7 @@ DeliverableExplicit(kind, s) ==
 WellFormed(kind, s) ==
   /\ Deliverable(kind, s)
   /\ TokenOnly(kind) => IsToken(TokenPart(kind, s))
-  /\ kind \in {"uri", "target", "proto", "rproto"} => ~Has(s, "NUL")
+  /\ kind \in {"uri", "uripart", "target", "proto", "rproto"} => ~Has(s, "NUL")
 
 \* the outcome set of the contract.  Vectors are emitted per slot KIND (the reference depends
 \* on the kind only); SlotRec lists the slots with their kind, and the harness applies every
@@ -158,6 +175,7 @@ Vector(kind, s) ==
     \* for slots whose API has an error return: the input cannot be carried, the sender must refuse
     senderMustReject |-> ~WellFormed(kind, s) ]
 SlotRec(sl) == [ rec |-> "slot", slot |-> sl.id, side |-> sl.side, kind |-> sl.kind, sender |-> sl.sender,
+                 encoded |-> sl.id \in EncodedSlots,
                  input |-> <<>>, neutral |-> <<>>, expect |-> <<>>, deliverable |-> FALSE, wellformed |-> FALSE,
                  senderMustReject |-> FALSE ]
 Kinds == { sl.kind : sl \in Slots }
